@@ -785,3 +785,74 @@ func init() {
 		Desc: "Diff polled from a second goroutine while the owner of the consumer reads, commits and rolls back",
 		Opts: vrt.Options{Delay: true}, Run: bDiff, Check: bufferCheck(defaultPolicy)})
 }
+
+// B-reclaim-parked: as B-reclaim, but a second, caught-up consumer is parked in a blocked Get
+// (its waiter goroutine sleeps on the same cond as the cleaner) when the program goes quiet.
+func bReclaimParked(cooldown time.Duration) func() {
+	return func() {
+		h := newBufH(cooldown, nil)
+		c1, c2 := h.newC(), h.newC()
+		ctx, cancel := context.WithCancel(context.Background())
+		var wg, pwg sync.WaitGroup
+		wg.Add(2)
+		pwg.Add(1)
+		go func() {
+			defer wg.Done()
+			h.put(0, nil, 1, 2)
+		}()
+		go func() {
+			defer wg.Done()
+			for k := 0; k < 2; k++ {
+				c1.get(0, nil)
+				c1.commit()
+			}
+		}()
+		go func() {
+			defer pwg.Done()
+			for k := 0; k < 2; k++ {
+				c2.get(0, nil)
+				c2.commit()
+			}
+			c2.get(1, ctx) // parked: nothing more is ever put
+		}()
+		wg.Wait()
+		vrt.Log("quiet", int(vrt.Elapsed()), 0)
+		for h.b.Size() > 0 {
+			vrt.Yield()
+		}
+		vrt.Log("reclaimed", int(vrt.Elapsed()), h.b.Size(), int(cooldown))
+		cancelCtx(1, cancel)
+		pwg.Wait()
+		h.finish(c1, c2)
+	}
+}
+
+// B-reclaim-busy: the workload never goes quiet for a whole cooldown (an operation every 4ms of
+// virtual time, cooldown 10ms): consumed prefixes must still be freed while it goes on.
+func bReclaimBusy() {
+	h := newBufH(10*time.Millisecond, nil)
+	c := h.newC()
+	for i := 1; i <= 12; i++ {
+		h.put(0, nil, i)
+		c.get(0, nil)
+		c.commit()
+		time.Sleep(4 * time.Millisecond)
+		vrt.Log("busy-size", i, h.b.Size(), int(vrt.Elapsed()))
+	}
+	h.finish(c)
+}
+
+func init() {
+	for _, cd := range []time.Duration{0, 10 * time.Millisecond} {
+		name := "B-reclaim-parked"
+		if cd == 0 {
+			name += "-cd0"
+		}
+		vrt.Register(&vrt.Scenario{Name: name, Props: []string{"C04", "C11:race", "C12:goroutine-leak,close-"}, Quick: 2, Thorough: 3,
+			Desc: "as B-reclaim with a second, caught-up consumer parked in a blocked Get on the same cond when the program goes quiet",
+			Opts: vrt.Options{Delay: true}, Run: bReclaimParked(cd), Check: reclaimCheck(defaultPolicy)})
+	}
+	vrt.Register(&vrt.Scenario{Name: "B-reclaim-busy", Props: []string{"C04", "C12:goroutine-leak,close-"}, Quick: 1, Thorough: 2,
+		Desc: "a consumer that keeps up with one Put every 4ms of virtual time (cooldown 10ms): the buffer must be trimmed while the traffic goes on",
+		Opts: vrt.Options{Delay: true}, Run: bReclaimBusy, Check: reclaimCheck(defaultPolicy)})
+}
